@@ -151,7 +151,7 @@ class Check:
         w['fff'] = rng.choice([[], [], [], ['foo'], ['foosub'], ['other']])
         calls = []
         for _ in range(rng.choice([1, 1, 2, 3])):
-            c: T.Dict[str, T.Any] = {'version': rng.choice([None, None, '>=2.0', '<2.0', '>=1.0']), 'required': rng.random() < 0.5}
+            c: T.Dict[str, T.Any] = {'version': rng.choice([None, None, '>=2.0', '<2.0', '>=1.0', '>=9.0']), 'required': rng.random() < 0.5}
             mode = rng.choice(['plain', 'fallback1', 'fallback2', 'fallback-empty', 'allow-true', 'allow-false'])
             if mode == 'fallback1':
                 c['fallback'] = ['foosub']
@@ -163,8 +163,24 @@ class Check:
                 c['allow_fallback'] = True
             elif mode == 'allow-false':
                 c['allow_fallback'] = False
+            if calls and rng.random() < 0.35:
+                # a follow-up lookup that differs from the previous one only in its version constraint
+                c = dict(calls[-1])
+                c['version'] = rng.choice([None, '>=2.0', '<2.0', '>=9.0'])
+                if rng.random() < 0.3:
+                    c['required'] = False
             calls.append(c)
         w['calls'] = calls
+        pre = []
+        if rng.random() < 0.12:
+            pre.append({'kind': 'override', 'version': rng.choice(['0.9', '2.2']), 'found': rng.random() < 0.85})
+        if w['sub'] is not None and rng.random() < 0.15:
+            pre.append({'kind': 'subproject'})
+        if len(pre) > 1:
+            # overriding a name twice (top project + subproject) is an error by itself, not a lookup
+            pre = [rng.choice(pre)]
+        if pre:
+            w['pre'] = pre
         w['cmd'] = 'setup' if rng.random() < 0.9 or kind != 'wrap' else 'download'
         return w
 
@@ -178,6 +194,14 @@ class Check:
             with open(os.path.join(pc, 'foo.pc'), 'w') as f:
                 f.write(f"Name: foo\nDescription: system foo\nVersion: {w['sys']}\nLibs: -lfoo\n")
         lines = ["project('c10', meson_version: '>=0.60.0')\n"]
+        for pre in w.get('pre', []):
+            if pre['kind'] == 'override':
+                if pre.get('found', True):
+                    lines.append(f"meson.override_dependency('foo', declare_dependency(version: {q(pre['version'])}))\n")
+                else:
+                    lines.append("meson.override_dependency('foo', dependency('', required: false))\n")
+            elif pre['kind'] == 'subproject' and w.get('sub') is not None:
+                lines.append("sp_first = subproject('foosub', required: false)\nmessage('SUBFIRST found=@0@'.format(sp_first.found()))\n")
         for i, c in enumerate(w['calls'], 1):
             kw = [f"required: {'true' if c.get('required', True) else 'false'}"]
             if c.get('version'):
@@ -464,6 +488,10 @@ class Check:
                 c = copy.deepcopy(sc)
                 c['net'][url] = c['net'][url][:1]
                 yield c
+        for i in range(len(sc.get('pre', []))):
+            c = copy.deepcopy(sc)
+            del c['pre'][i]
+            yield c
         if sc.get('fff'):
             c = copy.deepcopy(sc)
             c['fff'] = []
